@@ -24,7 +24,9 @@ def check(run, tier):
         run.mc("MC_Twin", "MC_Twin_mixed_d4", timeout=3000)
     r = rng("C05")
     # the mixing primitive itself: all small volume pairs x a pool of compositions (incl. unknown and shared names)
-    pool = [None, {"x": (1, 1)}, {"y": (1, 1)}, {"x": (1, 2), "y": (1, 2)}, {"x": (1, 4), "z": (3, 4)}, {"w": (2, 3), "x": (1, 3)}, {}]
+    pool = [None, {"x": (1, 1)}, {"y": (1, 1)}, {"x": (1, 2), "y": (1, 2)}, {"x": (1, 4), "z": (3, 4)}, {"w": (2, 3), "x": (1, 3)}, {},
+            # the same components in the other insertion order with other fractions (dict order must not matter)
+            {"z": (1, 4), "x": (3, 4)}, {"y": (1, 4), "x": (3, 4)}]
     ps = []
     for va in range(0, 7 if q else 13):
         for vb in range(0, 7 if q else 13):
